@@ -255,7 +255,7 @@ def build(rep, tier_, rng):
     from mpmath import mp
     c = Ctx(rep, rng, mp)
     c.interval_items = []
-    N = 60 if tier_ == "quick" else 900
+    N = 48 if tier_ == "quick" else 900
     precs = [30, 40, 53, 64, 100, 150, 200]
     p0 = mp.prec
     try:
